@@ -17,7 +17,8 @@ import (
 
 type stepCtx struct {
 	sc   *Scenario
-	outs map[int][]byte // bytes produced by encode steps
+	outs map[int][]byte        // bytes produced by encode steps
+	objs map[int]reflect.Value // destination objects (*S) of decode steps
 }
 
 func num(m map[string]interface{}, k string, def int) int {
@@ -62,7 +63,7 @@ func runScenario(idx int, sc *Scenario, first int) {
 		emit(fmt.Sprintf(`{"ev":"Scenario","scen":%d,"sid":%s,"prop":%s,"vals":%s}`,
 			idx, strconv.Quote(sc.Sid), strconv.Quote(sc.Prop), vals))
 	}
-	ctx := &stepCtx{sc: sc, outs: map[int][]byte{}}
+	ctx := &stepCtx{sc: sc, outs: map[int][]byte{}, objs: map[int]reflect.Value{}}
 	for k, st := range sc.Steps {
 		if k < first {
 			continue
@@ -78,6 +79,11 @@ func runScenario(idx int, sc *Scenario, first int) {
 }
 
 func (c *stepCtx) runStep(k int, st map[string]interface{}) []string {
+	if o, ok := st["obj"]; ok {
+		if _, have := c.objs[int(o.(float64))]; !have {
+			return []string{fmt.Sprintf(`"ev":"Skipped","why":"no object from step %d"`, int(o.(float64)))}
+		}
+	}
 	switch str(st, "op", "") {
 	case "size":
 		return []string{c.stepSize(st)}
@@ -152,7 +158,11 @@ func errObs(err error) string {
 // argument: the value built from vals[v], passed by pointer or by value
 func (c *stepCtx) arg(st map[string]interface{}) (ty string, holder reflect.Value, iface interface{}) {
 	ty = str(st, "ty", "")
-	holder = newValue(ty, c.sc.Vals[num(st, "v", 0)])
+	if k, ok := st["obj"]; ok { // the object a previous decode step produced
+		holder = c.objs[int(k.(float64))]
+	} else {
+		holder = newValue(ty, c.sc.Vals[num(st, "v", 0)])
+	}
 	if boolean(st, "byval") {
 		iface = holder.Elem().Interface()
 	} else {
@@ -171,6 +181,14 @@ func argDigest(ty string, holder reflect.Value, iface interface{}, byval bool) s
 		d += "/" + digest(ty, cp)
 	}
 	return d
+}
+
+// inlineVal: for calls on a previously decoded object the abstract value travels in the line
+func (c *stepCtx) inlineVal(st map[string]interface{}, ty string, holder reflect.Value) string {
+	if _, ok := st["obj"]; !ok {
+		return ""
+	}
+	return `"val":` + projectStruct(ty, holder) + `,`
 }
 
 func callSize(v interface{}) (n int, pan interface{}) {
@@ -197,8 +215,8 @@ func (c *stepCtx) stepSize(st map[string]interface{}) string {
 	pre := argDigest(ty, holder, iface, byval)
 	n, pan := callSize(iface)
 	post := argDigest(ty, holder, iface, byval)
-	head := fmt.Sprintf(`"ev":"Size","ty":%q,"v":%d,"byval":%v,"obs":{"pre":%q,"post":%q,`,
-		ty, num(st, "v", 0), byval, pre, post)
+	head := fmt.Sprintf(`"ev":"Size","ty":%q,"v":%d,%s"byval":%v,"obs":{"pre":%q,"post":%q,`,
+		ty, num(st, "v", 0), c.inlineVal(st, ty, holder), byval, pre, post)
 	if pan != nil {
 		return head + panicObs(pan) + "}"
 	}
@@ -217,6 +235,7 @@ func (c *stepCtx) stepEncode(k int, st map[string]interface{}) string {
 	blen := num(bufspec, "n", 0)
 	extra := num(bufspec, "extra", 0)
 	probe := -1
+	pre := argDigest(ty, holder, iface, byval) // before any call, the probing one included
 	if mode == "rel" {
 		// learn the length of the message from a call with a large buffer
 		big := make([]byte, 1<<16)
@@ -240,7 +259,6 @@ func (c *stepCtx) stepEncode(k int, st map[string]interface{}) string {
 		back[i] = guardAt(i)
 	}
 	buf := back[:blen:len(back)]
-	pre := argDigest(ty, holder, iface, byval)
 	n, err, pan := callEncode(buf, iface)
 	post := argDigest(ty, holder, iface, byval)
 	lo, hi := -1, -1
@@ -252,8 +270,8 @@ func (c *stepCtx) stepEncode(k int, st map[string]interface{}) string {
 			hi = i
 		}
 	}
-	head := fmt.Sprintf(`"ev":"Encode","ty":%q,"v":%d,"byval":%v,"buflen":%d,"bufcap":%d,"probe":%d,"obs":{"pre":%q,"post":%q,"dlo":%d,"dhi":%d,`,
-		ty, num(st, "v", 0), byval, blen, len(back), probe, pre, post, lo, hi)
+	head := fmt.Sprintf(`"ev":"Encode","ty":%q,"v":%d,%s"byval":%v,"buflen":%d,"bufcap":%d,"probe":%d,"obs":{"pre":%q,"post":%q,"dlo":%d,"dhi":%d,`,
+		ty, num(st, "v", 0), c.inlineVal(st, ty, holder), byval, blen, len(back), probe, pre, post, lo, hi)
 	if pan != nil {
 		return head + panicObs(pan) + "}"
 	}
@@ -313,6 +331,7 @@ func (c *stepCtx) stepDecode(k int, st map[string]interface{}) string {
 	if err != nil {
 		return head + fmt.Sprintf(`"out":"err","n":%d,`, n) + errObs(err) + "}"
 	}
+	c.objs[k] = dest
 	return head + fmt.Sprintf(`"out":"ok","n":%d,"val":%s}`, n, projectStruct(ty, dest))
 }
 
